@@ -3,9 +3,6 @@ package link
 import (
 	"encoding/binary"
 	"fmt"
-	"runtime/debug"
-	"sync"
-	"syscall"
 
 	"google.golang.org/protobuf/proto"
 	"google.golang.org/protobuf/reflect/protoreflect"
@@ -65,24 +62,6 @@ func lenValues(width int) []int64 {
 	return []int64{-1, 0, limit, limit + 1, 1 << 15, 1<<16 - 1, 1<<31 - 1}
 }
 
-var limitOnce sync.Once
-
-// limitAddressSpace puts the worker under the address-space limit the C13
-// oracle is stated for.
-func limitAddressSpace() {
-	limitOnce.Do(func() {
-		lim := syscall.Rlimit{Cur: addressSpaceLimit, Max: addressSpaceLimit}
-		var cur syscall.Rlimit
-		if err := syscall.Getrlimit(syscall.RLIMIT_AS, &cur); err == nil && cur.Max < lim.Max {
-			lim.Max = cur.Max
-			if lim.Cur > lim.Max {
-				lim.Cur = lim.Max
-			}
-		}
-		_ = syscall.Setrlimit(syscall.RLIMIT_AS, &lim)
-	})
-}
-
 func genC13(r *kernel.Rand, sc *kernel.Scenario, tier string, run int) {
 	fams := c13Families()
 	fam := fams[run%len(fams)]
@@ -98,17 +77,35 @@ func genC13(r *kernel.Rand, sc *kernel.Scenario, tier string, run int) {
 		}
 		return r.Weighted([]int{4, 4, 2})
 	}
-	// every base value: all truncations with every target
-	for m := 0; m < nBase; m++ {
-		for t := 0; t < 3; t++ {
-			if t > 0 && !env {
-				break
+	// the first base value: all truncations with every decoder
+	for t := 0; t < 3; t++ {
+		if t > 0 && !env {
+			break
+		}
+		sc.Faults = append(sc.Faults, kernel.St("trunc-enum", "m", 0, "t", t, "seed", int64(r.Uint64()>>2)))
+	}
+	// protobuf mutation sites of every base envelope, so that a fault names its
+	// site by path (a replay then means the same site on a tree whose encoder
+	// produces a slightly different message)
+	var sitePaths [][]string
+	if env {
+		for _, v := range buildBases(sc) {
+			var paths []string
+			if b, ok := v.base(tProto); ok && len(b.data) >= 2 {
+				var e protobuf.Envelope
+				if proto.Unmarshal(b.data[2:], &e) == nil {
+					var sites []pbSite
+					pbSites(e.ProtoReflect(), "Envelope", &sites)
+					for _, s := range sites {
+						paths = append(paths, s.path)
+					}
+				}
 			}
-			sc.Faults = append(sc.Faults, kernel.St("trunc-enum", "m", m, "t", t, "seed", int64(r.Uint64()>>2)))
+			sitePaths = append(sitePaths, paths)
 		}
 	}
 	seen := map[string]bool{}
-	n := 350
+	n := 600
 	for len(sc.Faults) < n {
 		m, t := r.Intn(nBase), target()
 		var f kernel.Step
@@ -128,6 +125,17 @@ func genC13(r *kernel.Rand, sc *kernel.Scenario, tier string, run int) {
 				f = kernel.St("len", "m", m, "t", tProto, "f", 0, "v", r.Intn(7), "be", true)
 			} else {
 				f = kernel.St("pb", "m", m, "t", tProto, "site", r.Intn(1000), "mut", r.Intn(12), "val", r.Intn(12))
+				if m < len(sitePaths) && len(sitePaths[m]) > 0 {
+					k := int(f.Int("site")) % len(sitePaths[m])
+					occ := 0
+					for _, p := range sitePaths[m][:k] {
+						if p == sitePaths[m][k] {
+							occ++
+						}
+					}
+					f.A["site"], f.A["occ"] = int64(k), int64(occ)
+					f.S = map[string]string{"path": sitePaths[m][k]}
+				}
 			}
 		case op == 2:
 			f = kernel.St("splice", "m", m, "t", t, "m2", r.Intn(nBase), "at", int64(r.Uint64()>>40), "at2", int64(r.Uint64()>>40))
@@ -278,8 +286,10 @@ func growList(l protoreflect.List, fd protoreflect.FieldDescriptor, n int) {
 				b = append(b, l.Get(l.Len()-1).Bytes()...)
 			}
 			l.Append(protoreflect.ValueOfBytes(b))
+		case fd.Kind() == protoreflect.Uint32Kind:
+			l.Append(protoreflect.ValueOfUint32(uint32(l.Len())))
 		default:
-			l.Append(fd.Default())
+			return
 		}
 	}
 }
@@ -417,6 +427,18 @@ func pbFault(frame []byte, f *kernel.Step) ([]byte, string) {
 	var sites []pbSite
 	pbSites(env.ProtoReflect(), "Envelope", &sites)
 	s := sites[int(uint64(f.Int("site"))%uint64(len(sites)))]
+	if p := f.Str("path"); p != "" { // by path and occurrence, when the message still has that site
+		occ := int(f.Int("occ"))
+		for _, c := range sites {
+			if c.path == p {
+				if occ == 0 {
+					s = c
+					break
+				}
+				occ--
+			}
+		}
+	}
 	r := kernel.NewRand(kernel.Derive(uint64(f.Int("site")), "pb", f.Int("mut"), f.Int("val")))
 	desc := pbMutate(s, int(uint64(f.Int("mut"))%64), int(uint64(f.Int("val"))%64), r)
 	if desc == "" {
@@ -554,99 +576,4 @@ func decoderName(v *value, t int) string {
 		return targetNames[t] + "/" + v.typ.String()
 	}
 	return v.kind.name
-}
-
-func (Engine) execC13(sc *kernel.Scenario, res *kernel.Result, trace bool) {
-	limitAddressSpace()
-	logf := func(format string, a ...any) {
-		if trace && len(res.Trace) < 400 {
-			res.Trace = append(res.Trace, fmt.Sprintf(format, a...))
-		}
-	}
-	var vals []*value
-	for i := range sc.Steps {
-		if sc.Steps[i].Op != "val" {
-			continue
-		}
-		v, err := buildValue(&sc.Steps[i])
-		if err != nil {
-			continue // not a C13 matter; C14 reports encoders that refuse well-formed values
-		}
-		vals = append(vals, v)
-	}
-	if len(vals) == 0 {
-		return
-	}
-	// the unmodified bytes must decode (otherwise the mutants say little)
-	for _, v := range vals {
-		for t := 0; t < 3; t++ {
-			if b, ok := v.base(t); ok {
-				o := decodeWith(v, t, b.data)
-				res.Evals++
-				if o.paniced {
-					res.Fail(0, "C13.panic@"+o.site, "decoding well-formed %s bytes with %s: %v", v.label, decoderName(v, t), o.pval)
-					return
-				}
-				if o.err == nil {
-					res.Count("probe.base-decodes", 1)
-				}
-			}
-		}
-	}
-	okCount, errCount := int64(0), int64(0)
-	for fi := range sc.Faults {
-		f := &sc.Faults[fi]
-		v, cases := expand(f, vals)
-		res.Count("fault."+f.Op, int64(len(cases)))
-		for _, c := range cases {
-			o := decodeWith(v, c.t, c.data)
-			res.Evals++
-			dn := decoderName(v, c.t)
-			if o.alloc > allocProbe {
-				res.Count("probe.alloc-over-64MiB@"+dn, 1)
-				logf("probe: %s, %s: one decode allocated %d MiB", dn, c.label, o.alloc>>20)
-				debug.FreeOSMemory()
-			}
-			var check, detail string
-			switch {
-			case o.paniced:
-				check = "C13.panic@" + o.site
-				detail = fmt.Sprintf("%s decoder, %s (%d bytes): panic: %v (called from %s)", dn, c.label, len(c.data), o.pval, o.caller)
-			case o.err == nil:
-				okCount++
-				lim := guarded(func() (any, error) { return gen.OverLimit(o.v), nil })
-				if lim.paniced {
-					// the decoder returned a value the harness cannot even walk (nil rows and the like): not claimed
-					res.Count("probe.unwalkable-value", 1)
-				} else if what := lim.v.(string); what != "" {
-					check = "C13.limit@" + targetNames[c.t] + "/" + what
-					if !v.kind.env {
-						check = "C13.limit@" + v.kind.name + "/" + what
-					}
-					detail = fmt.Sprintf("%s decoder, %s: decoded without error although %s exceeds the documented limit", dn, c.label, what)
-				}
-			default:
-				errCount++
-			}
-			if check != "" {
-				res.Fail(fi, check, "%s", detail)
-				logf("VIOLATION %s: %s", check, detail)
-				if c.ex != nil {
-					ex := *sc
-					ex.Faults = []kernel.Step{*c.ex}
-					res.Explicit = &ex
-				}
-				return
-			}
-			if trace && len(cases) == 1 {
-				logf("%s, %s: err=%v", dn, c.label, o.err != nil)
-			}
-		}
-		if fi%64 == 0 {
-			kernel.Progress()
-		}
-	}
-	res.Count("probe.mutant-decoded-without-error", okCount)
-	res.Count("probe.mutant-rejected-with-error", errCount)
-	res.NonTrivial = okCount > 0 && errCount > 0
 }
